@@ -444,7 +444,7 @@ def error_class(msg):
 
 
 def check_e2e(ctx, problem, cfg, prop='C01', label='random', workdir=None,
-              tmp_dir=True, history=None):
+              tmp_dir=True, history=None, keep=None):
     detail = {'kind': 'e2e', 'problem': problem, 'config': cfg}
     if history is not None:
         # same-process history: the failing step with everything before it
@@ -454,6 +454,8 @@ def check_e2e(ctx, problem, cfg, prop='C01', label='random', workdir=None,
         ctx.case(None)
         return True
     r = U.run_problem(problem, cfg, workdir=workdir, tmp_dir=tmp_dir)
+    if keep is not None:
+        keep['results'] = r['results'] if r['ok'] else None
     if not tmp_dir:
         ctx.count('e2e:tmp_dir=None')
     nontriv = U.has_choice(tree) and len(problem['cell_ids']) >= 2
@@ -474,6 +476,8 @@ def check_e2e(ctx, problem, cfg, prop='C01', label='random', workdir=None,
         ctx.count('e2e:no-runners-up')
     if cfg['bootstrap_iteration'] == 1:
         ctx.count('e2e:single-iteration')
+    if cfg.get('bootstrap_factor_lookup'):
+        ctx.count('e2e:bootstrap_factor_lookup')
     ctx.count('e2e:drop:%s' % (
         'none' if cfg['drop_level'] is None else
         'absent' if cfg['drop_level'] not in tree['hierarchy'] else
@@ -550,6 +554,7 @@ def run_e2e(ctx, n):
             if i % 2:
                 cfg['n_runners_up'] = 0
                 cfg['bootstrap_iteration'] = 1
+        U.maybe_factor_lookup(ctx.rng, problem['tree'], cfg)
         check_e2e(ctx, problem, cfg)
 
 
@@ -588,20 +593,60 @@ def next_query(rng, problem):
     return p, kind
 
 
+def sparsify(rng, problem, p_zero=0.55):
+    """many zero counts, so that rows store different numbers of entries in
+    the sparse encodings (no all-zero row)"""
+    for row in problem['X']:
+        keep = rng.randrange(len(row))
+        for j in range(len(row)):
+            if j != keep and rng.random() < p_zero:
+                row[j] = 0.0
+        if row[keep] == 0.0:
+            row[keep] = 1.0
+    return problem
+
+
 def gen_history(rng, n_steps):
+    """every other history is 'sparse': rows with differing numbers of stored
+    entries, the encoding held at csr / csc / dense for consecutive steps,
+    tmp_dir=None (files read in place) and steps that keep the row count
+    (same cells re-ordered)"""
     steps = []
-    problem = U.make_problem(rng, max_depth=4, n_cells=rng.randint(2, 8))
+    sparse = rng.random() < 0.5
+    enc = rng.choice(['csr', 'csr', 'csc', 'dense'])
+    problem = U.make_problem(rng, max_depth=4, n_cells=rng.randint(3, 8))
+    if sparse:
+        sparsify(rng, problem)
     for i in range(n_steps):
         if i > 0:
-            if rng.random() < 0.3:
+            if sparse and rng.random() < 0.6:
+                problem = copy.deepcopy(problem)
+                cells = list(zip(problem['cell_ids'], problem['X']))
+                rng.shuffle(cells)
+                if len(cells) > 1 and \
+                        [c for c, _ in cells] == problem['cell_ids']:
+                    cells.reverse()
+                problem['cell_ids'] = [c for c, _ in cells]
+                problem['X'] = [list(x) for _, x in cells]
+            elif rng.random() < 0.3:
                 # stats, markers and query all re-written
                 problem = U.make_problem(rng, max_depth=4,
                                          n_cells=rng.randint(1, 8))
+                if sparse:
+                    sparsify(rng, problem)
             else:
                 problem, _ = next_query(rng, problem)
+                if sparse:
+                    sparsify(rng, problem)
         cfg = U.gen_config(rng, problem)
+        if sparse:
+            if rng.random() < 0.8:
+                cfg['encoding'] = enc
+            else:
+                enc = cfg['encoding']
+        U.maybe_factor_lookup(rng, problem['tree'], cfg, prob=0.2)
         steps.append({'problem': problem, 'config': cfg,
-                      'tmp_dir': rng.random() < 0.4})
+                      'tmp_dir': rng.random() < (0.2 if sparse else 0.4)})
     return steps
 
 
@@ -614,12 +659,32 @@ def check_history(ctx, steps, prop='C01'):
     with pipeline.workdir('ctmverif_ll_hist_') as d:
         for i, st in enumerate(steps):
             ctx.count('history:step')
+            keep = {}
             ok = check_e2e(ctx, st['problem'], st['config'], prop=prop,
                            label='history', workdir=d,
                            tmp_dir=st.get('tmp_dir', True),
-                           history=steps[:i + 1]) and ok
+                           history=steps[:i + 1], keep=keep) and ok
             if not ok:
                 break
+            if i > 0 and keep.get('results') is not None:
+                # the same mapping from freshly written files in a fresh
+                # directory: a record must be computed from the cell's row of
+                # the file as it is NOW, whatever was mapped before
+                fresh = U.run_problem(st['problem'], st['config'],
+                                      want_trace=False)
+                ctx.count('history:fresh-run-compared')
+                if fresh['ok'] and fresh['results'] != keep['results']:
+                    bad = [a['cell_id'] for a, b in
+                           zip(keep['results'], fresh['results']) if a != b]
+                    ctx.violation(
+                        '%s/history/differs-from-fresh-run' % prop,
+                        'step %d of a same-process history (files re-written '
+                        'at the same paths): the records of cells %r differ '
+                        'from those of the same mapping run on freshly '
+                        'written files' % (i, bad[:5]),
+                        {'kind': 'history', 'steps': steps[:i + 1]})
+                    ok = False
+                    break
     return ok
 
 
@@ -647,6 +712,7 @@ def run_shapes(ctx, max_levels, max_leaves, budget_s):
             cfg = U.gen_config(rng, problem, flatten=flatten)
             cfg['flatten'] = flatten
             cfg['drop_level'] = drop
+            U.maybe_factor_lookup(rng, tree, cfg, prob=0.25)
             check_e2e(ctx, problem, cfg, label='shape')
         n += 1
     ctx.extra_cov['exhaustive_shapes'] = n
